@@ -112,6 +112,7 @@ type ggen struct {
 	inFunc *GFunc
 	inBlk  int // inside func(){}() literal: break/continue of outer loops not allowed
 	budget int // remaining statements
+	mayPanic int // operations that may panic still allowed in the current statement (gc does not order two of them)
 	stats  map[string]int
 }
 
@@ -263,7 +264,8 @@ func (g *ggen) expr(t GType, depth int, mode byte) *GExpr {
 			op := []string{"div", "mod"}[r.Intn(2)]
 			a := g.expr(TInt, depth-1, mode)
 			var b *GExpr
-			if mode == 'p' && r.Chance(35) {
+			if mode == 'p' && g.mayPanic > 0 && r.Chance(35) {
+				g.mayPanic--
 				b = g.expr(TInt, depth-1, mode) // may be zero at run time
 				if isConst(b) {
 					b = lit(int64(1 + r.Intn(7)))
@@ -289,8 +291,9 @@ func (g *ggen) expr(t GType, depth int, mode byte) *GExpr {
 			}
 			return &GExpr{K: "len", Args: []*GExpr{g.expr(TStr, depth-1, mode)}, T: TInt}
 		case 6:
-			if mode == 'p' {
+			if mode == 'p' && g.mayPanic > 0 {
 				if v := useVar(func(v *gvar) bool { return v.t == TSliceInt }); v != nil {
+					g.mayPanic--
 					return &GExpr{K: "ix", Args: []*GExpr{v, g.indexExpr(depth - 1)}, T: TInt}
 				}
 			}
@@ -369,8 +372,9 @@ func (g *ggen) expr(t GType, depth int, mode byte) *GExpr {
 			}
 			return &GExpr{K: "spr", Args: []*GExpr{a}, T: TStr}
 		case 4:
-			if mode == 'p' {
+			if mode == 'p' && g.mayPanic > 0 {
 				if v := useVar(func(v *gvar) bool { return v.t == TSliceStr }); v != nil {
+					g.mayPanic--
 					return &GExpr{K: "ix", Args: []*GExpr{v, g.indexExpr(depth - 1)}, T: TStr}
 				}
 			}
@@ -485,9 +489,16 @@ func (g *ggen) callOf(f *GFunc, depth int) *GExpr {
 }
 
 func (g *ggen) mode() byte {
+	g.mayPanic = 1
 	if len(g.funcs) > 0 && g.r.Chance(40) {
 		return 'c'
 	}
+	return 'p'
+}
+
+// pmode: panic mode for one statement-level expression (one may-panic operation at most).
+func (g *ggen) pmode() byte {
+	g.mayPanic = 1
 	return 'p'
 }
 
@@ -580,8 +591,10 @@ func (g *ggen) stmt(depth int) []*GStmt {
 			v.used = true
 			if v.t == TSliceInt && r.Chance(30) {
 				var e *GExpr = lit(int64(1 + r.Intn(9)))
+				g.mayPanic = 0
 				return one(&GStmt{K: "opa", LHS: []*GLHS{{Name: v.name, Idx: g.indexExpr(1)}}, Op: []string{"add", "sub", "mul"}[r.Intn(3)], Es: []*GExpr{e}})
 			}
+			g.mayPanic = 0 // the indexed left-hand side is the one operation that may panic
 			return one(&GStmt{K: "asg", LHS: []*GLHS{{Name: v.name, Idx: g.indexExpr(1)}}, Es: []*GExpr{g.expr(v.t.Elem(), 1, 'p')}})
 		case 8: // self-append
 			v := g.pickVar(func(v *gvar) bool { return v.t.IsSlice() && v.mut && v.frozen == 0 })
@@ -808,7 +821,7 @@ func (g *ggen) stmt(depth int) []*GStmt {
 				ne := 1 + r.Intn(2)
 				for j := 0; j < ne; j++ {
 					if !tagged {
-						c.Es = append(c.Es, g.expr(TBool, 2, 'p'))
+						c.Es = append(c.Es, g.expr(TBool, 2, g.pmode()))
 						if isConst(c.Es[len(c.Es)-1]) { // constant bool cases may duplicate
 							c.Es[len(c.Es)-1] = &GExpr{K: "bin", Op: "eq", T: TBool, Args: []*GExpr{g.exprNonConst(TInt), lit(int64(r.Intn(5)))}}
 						}
@@ -845,7 +858,7 @@ func (g *ggen) stmt(depth int) []*GStmt {
 				continue
 			}
 			body := []*GStmt{{K: []string{"brk", "cnt"}[r.Intn(2)]}}
-			return one(&GStmt{K: "if", Cond: g.expr(TBool, 2, 'p'), Body: body})
+			return one(&GStmt{K: "if", Cond: g.expr(TBool, 2, g.pmode()), Body: body})
 		case 22: // closure as block
 			if depth <= 0 {
 				continue
@@ -856,7 +869,7 @@ func (g *ggen) stmt(depth int) []*GStmt {
 			var early *GStmt
 			if r.Chance(30) {
 				// early return from the literal (generated before the body: outer names only)
-				early = &GStmt{K: "if", Cond: g.expr(TBool, 2, 'p'), Body: []*GStmt{{K: "ret"}}}
+				early = &GStmt{K: "if", Cond: g.expr(TBool, 2, g.pmode()), Body: []*GStmt{{K: "ret"}}}
 			}
 			body := g.block(depth-1, 1+r.Intn(3))
 			if early != nil {
@@ -866,11 +879,11 @@ func (g *ggen) stmt(depth int) []*GStmt {
 			g.loops = saveLoops
 			return one(&GStmt{K: "blk", Body: body})
 		case 23: // panic / exit / early return, guarded
-			cond := g.expr(TBool, 2, 'p')
+			cond := g.expr(TBool, 2, g.pmode())
 			var inner *GStmt
 			switch r.Intn(6) {
 			case 0:
-				inner = &GStmt{K: "pan", Es: []*GExpr{g.expr([]GType{TStr, TInt, TBool}[r.Intn(3)], 1, 'p')}}
+				inner = &GStmt{K: "pan", Es: []*GExpr{g.expr([]GType{TStr, TInt, TBool}[r.Intn(3)], 1, g.pmode())}}
 			case 1:
 				inner = &GStmt{K: "exit", Es: []*GExpr{lit(int64(r.Intn(100)))}}
 			default:
